@@ -283,6 +283,7 @@ class World:
         self.recv_lost = [False, False]     # the receiver of direction d has lost the connection
         self.send_lost = [False, False]     # the sender of direction d has lost the connection
         self.keep = []
+        self.hook_ctx = []          # stack of (direction, cid, left) of the hooks that are running (see issue / send)
         for d in (0, 1):
             self._instrument(d)
         q = E.ev._theSimpleQueue
@@ -325,7 +326,10 @@ class World:
                 side.sent.append(cid)
                 if obj.reqID:
                     side.reqid2cid[obj.reqID] = cid
-                self.cur_ops[d].append(("I", fate, stalls, side.ngifts.get(cid, 0)))
+                # issued from inside the serialization of a call of this direction (a hook is running): 5th field =
+                # (that call, number of Deferreds it still has to wait for at this control point); None for ordinary code
+                inside = next(((pc, left) for hd, pc, left in reversed(self.hook_ctx) if hd == d), None)
+                self.cur_ops[d].append(("I", fate, stalls, side.ngifts.get(cid, 0), inside))
                 obj.c04_cid = cid
             dd = real_send(obj)
             if cid is not None and not self.loopback:
@@ -414,10 +418,18 @@ class World:
         kw = dict(cid=cid, a=None, x=1, g=None)
         inner = spec.get("inner") if kind != "local" else None
         if inner:
-            def hook(calls=list(inner["calls"])):
+            # the model's name for the control point: how many Deferreds the call still has to wait for when the hook runs
+            at = inner["at"]
+            left = stalls if at in ("copy", "start", "mid") else (max(stalls - 1, 0) if at == "resume" else 0)
+
+            def hook(calls=list(inner["calls"]), ctxt=(d, cid, left)):
                 # application code that runs in the middle of this call's serialization and issues calls itself
-                for sp in calls:
-                    self.issue(1 - d if sp.get("rev") else d, sp)
+                self.hook_ctx.append(ctxt)
+                try:
+                    for sp in calls:
+                        self.issue(1 - d if sp.get("rev") else d, sp)
+                finally:
+                    self.hook_ctx.pop()
             if inner["at"] == "copy" and not stalls:
                 kw["a"] = HookCopy(hook)
             else:
